@@ -675,11 +675,13 @@ impl<'a> Parser<'a> {
         let mut attributes = HashMap::new();
 
         while let Some(attribute) = self.attribute() {
+            let name = attribute.name.clone();
             if attributes
-                .insert(attribute.name.source.clone(), attribute)
+                .insert(name.source.clone(), attribute)
                 .is_some()
             {
-                self.error(&format!("Duplicate attribute '{}'.", self.previous.source));
+                let message = format!("Duplicate attribute '{}'.", name.source);
+                self.error_at(name, &message);
                 break;
             }
 
